@@ -24,8 +24,10 @@ type miniEval struct {
 	rng     func(x ast.Expr) ([]int64, bool)         // elements of a non-constant range operand
 	maps    map[string]map[int64]bool                // sets / maps held in plain variables, by key
 	dyn     func(x ast.Expr) string                  // dynamic type (last name component) of a type-switch operand
-	lens    map[string]bool                          // variables that stand for a slice, valued by its LENGTH
-	steps   int                                      // loop iterations executed (bounded)
+	ctx     *core.Ctx                                // when set, calls of small pure module functions of integers are evaluated in place
+	depth   int
+	lens    map[string]bool // variables that stand for a slice, valued by its LENGTH
+	steps   int             // loop iterations executed (bounded)
 	unknown string
 	effects []string // assignments to anything that is not a plain variable, in program order
 }
@@ -168,6 +170,9 @@ func (e *miniEval) expr(x ast.Expr) int64 {
 			if v, ok := e.call(y); ok {
 				return v
 			}
+		}
+		if v, ok := e.inlinePure(y); ok {
+			return v
 		}
 		return e.fail("call " + core.ExprStr(y))
 	}
@@ -621,4 +626,46 @@ func internString(s string) int64 {
 	v := int64(1_000_000 + len(internTable))
 	internTable[s] = v
 	return v
+}
+
+// inlinePure evaluates a call of a module function (no receiver use, integer parameters, one
+// result) by running its body with the argument values: byte predicates like bytes.IsBlank.
+func (e *miniEval) inlinePure(call *ast.CallExpr) (int64, bool) {
+	if e.ctx == nil || e.depth > 4 {
+		return 0, false
+	}
+	f, ok := core.Callee(e.pk, call).(*types.Func)
+	if !ok || f.Pkg() == nil || !core.InScope(f.Pkg().Path()) {
+		return 0, false
+	}
+	sig := f.Type().(*types.Signature)
+	if sig.Results().Len() != 1 || sig.Params().Len() != len(call.Args) || sig.Params().Len() > 3 {
+		return 0, false
+	}
+	for i := 0; i < sig.Params().Len(); i++ {
+		b, isB := sig.Params().At(i).Type().Underlying().(*types.Basic)
+		if !isB || b.Info()&(types.IsInteger|types.IsBoolean) == 0 {
+			return 0, false
+		}
+	}
+	d := e.ctx.P.FindDecl(core.Rel(f.FullName()))
+	if d == nil || d.Decl.Body == nil {
+		return 0, false
+	}
+	sub := &miniEval{pk: d.Pkg, env: map[string]int64{}, ctx: e.ctx, depth: e.depth + 1}
+	k := 0
+	for _, fl := range d.Decl.Type.Params.List {
+		for _, nm := range fl.Names {
+			sub.env[nm.Name] = e.expr(call.Args[k])
+			k++
+		}
+	}
+	if e.unknown != "" {
+		return 0, false
+	}
+	st, rets := sub.run(d.Decl.Body.List)
+	if sub.unknown != "" || st != miniReturn || len(rets) != 1 {
+		return 0, false
+	}
+	return rets[0], true
 }
